@@ -223,7 +223,7 @@ theorem sections_name_lt (b : Bytes) : ∀ s ∈ sections b, s.nameLo < 42949672
   obtain ⟨i, -, rfl⟩ := hs
   exact ⟨le32_lt _ _, le32_lt _ _⟩
 
-theorem le32_bytes (b : Bytes) (o : Nat) :
+theorem le32_four_bytes (b : Bytes) (o : Nat) :
     le32 b o % 256 = byteAt b o ∧ le32 b o / 256 % 256 = byteAt b (o + 1) ∧
     le32 b o / 65536 % 256 = byteAt b (o + 2) ∧ le32 b o / 16777216 % 256 = byteAt b (o + 3) := by
   have := byteAt_lt b o; have := byteAt_lt b (o+1); have := byteAt_lt b (o+2); have := byteAt_lt b (o+3)
@@ -232,8 +232,8 @@ theorem le32_bytes (b : Bytes) (o : Nat) :
 
 theorem secAt_nameByte (b : Bytes) (o j : Nat) (hj : j < 8) : (secAt b o).nameByte j = byteAt b (o + j) := by
   have : j = 0 ∨ j = 1 ∨ j = 2 ∨ j = 3 ∨ j = 4 ∨ j = 5 ∨ j = 6 ∨ j = 7 := by omega
-  obtain ⟨a0, a1, a2, a3⟩ := le32_bytes b o
-  obtain ⟨c0, c1, c2, c3⟩ := le32_bytes b (o + 4)
+  obtain ⟨a0, a1, a2, a3⟩ := le32_four_bytes b o
+  obtain ⟨c0, c1, c2, c3⟩ := le32_four_bytes b (o + 4)
   rcases this with rfl | rfl | rfl | rfl | rfl | rfl | rfl | rfl
   · exact a0
   · exact a1
